@@ -67,9 +67,10 @@ PROPS["C14"] = {
     "groups": [
         {"id": "wellformed",
          "quick": ["c14::c14_from_str_3", "c14::c14_from_string_3", "c14::c14_from_bytes_3", "c14::c14_clone_2", "c14::c14_clone_from_2", "c14::c14_eq_hash_str_2",
-                   "c14::c14_eq_hash_mixed_2", "c14::c14_cstr_borrowed_4", "c14::c14_negative_twin"],
+                   "c14::c14_eq_hash_mixed_2", "c14::c14_cstr_borrowed_4", "c14::c14_cstr_borrowed_5", "c14::c14_cstr_borrowed_6",
+                   "c14::c14_negative_twin"],
          "thorough_adds": ["c14::c14_from_str_4", "c14::c14_from_string_4", "c14::c14_from_bytes_4", "c14::c14_clone_3", "c14::c14_clone_from_3",
-                           "c14::c14_eq_hash_str_3", "c14::c14_eq_hash_mixed_3", "c14::c14_cstr_borrowed_5"],
+                           "c14::c14_eq_hash_str_3", "c14::c14_eq_hash_mixed_3"],
          "cbmc_args": LEAK, "timeout": 2400},
     ],
     "negative": ["c14::c14_negative_twin"],
